@@ -105,6 +105,25 @@ def check_table(world, ctx):
                 got = vars(node).get(name, "<nothing stored>")
                 if not (type(got) is type(value) and got == value):
                     raise Violation("assignment-not-on-target", "%s: node %d should hold %s=%r (assigned directly or through a link), holds %r" % (ctx, label, name, value, got))
+    for label, node in enumerate(world.nodes):
+        # one hop at a time: what a link does not define itself is what its DIRECT target answers (the target may be a
+        # link of another class that answers the name itself - a class attribute, a property - or forwards it in turn)
+        if world.kind[label] != "link":
+            continue
+        for name in NAMES + CLASS_LEVEL_NAMES:
+            if hasattr(type(node), name):
+                continue
+            mine = theirs = ("missing", None)
+            try:
+                mine = ("value", getattr(node, name))
+            except AttributeError:
+                pass
+            try:
+                theirs = ("value", getattr(node.target, name))
+            except AttributeError:
+                pass
+            if mine[0] != theirs[0] or (mine[0] == "value" and mine[1] is not theirs[1] and not (type(mine[1]) is type(theirs[1]) and mine[1] == theirs[1])):
+                raise Violation("one-hop-forwarding", "%s: link %d (%s) answers %r for %r, its direct target (%s) answers %r" % (ctx, label, type(node).__name__, mine, name, type(node.target).__name__, theirs))
     for node in world.nodes:
         # the navigation attributes of every node - links included - follow its OWN position (definitions of C04)
         c04.check_node(node, world.rec.labels)
